@@ -1,5 +1,6 @@
 (* Proofs about Arith/Num.v: truncation, modulo. *)
-From Coq Require Import ZArith QArith Qround Qreduction Qpower Qabs List Lia Lqa.
+From Coq Require Import ZArith NArith Nnat Znat QArith Qround Qreduction Qpower Qabs List Lia Lqa.
+Import ListNotations.
 From NV Require Import Arith.Num.
 Open Scope Q_scope.
 
@@ -118,3 +119,319 @@ Proof. intros H. unfold nmod. apply qzero_iff in H. rewrite H. reflexivity. Qed.
 
 Example modulo_spec_nonvacuous : ~ (-(3) # 2) == 0 /\ nmod (7 # 2) (-(3) # 2) = Ok (1 # 2).
 Proof. split; [discriminate|reflexivity]. Qed.
+
+(* ---------- canonical representatives *)
+Lemma Qred_inject_Z n : Qred (inject_Z n) = inject_Z n.
+Proof.
+  unfold Qred, inject_Z.
+  pose proof (Z.ggcd_gcd n 1) as G. pose proof (Z.ggcd_correct_divisors n 1) as D.
+  destruct (Z.ggcd n 1) as [g [aa bb]]. cbn [fst snd] in *.
+  rewrite Z.gcd_1_r in G. subst g. destruct D as [D1 D2].
+  assert (A : aa = n) by lia. assert (B : bb = 1%Z) by lia. rewrite A, B. reflexivity.
+Qed.
+
+Theorem ops_canonical a b :
+  Qred (nadd a b) = nadd a b /\ Qred (nsub a b) = nsub a b /\ Qred (nmul a b) = nmul a b.
+Proof. unfold nadd, nsub, nmul. repeat split; apply Qred_complete, Qred_correct. Qed.
+
+(* the operators do not depend on the representative of their operands *)
+Theorem ops_proper a a' b b' : a == a' -> b == b' ->
+  nadd a b = nadd a' b' /\ nsub a b = nsub a' b' /\ nmul a b = nmul a' b'
+  /\ ndiv a b = ndiv a' b' /\ nmod a b = nmod a' b'.
+Proof.
+  intros Ea Eb. unfold nadd, nsub, nmul, ndiv, nmod.
+  assert (Z : qzero b = qzero b').
+  { destruct (qzero b) eqn:Z1, (qzero b') eqn:Z2; try reflexivity.
+    - apply qzero_iff in Z1. apply qzero_false in Z2. exfalso. apply Z2. rewrite <- Eb. exact Z1.
+    - apply qzero_iff in Z2. apply qzero_false in Z1. exfalso. apply Z1. rewrite Eb. exact Z2. }
+  repeat split; try (apply Qred_complete; rewrite Ea, Eb; reflexivity).
+  - rewrite Z. destruct (qzero b'); [reflexivity|]. f_equal. apply Qred_complete. rewrite Ea, Eb. reflexivity.
+  - rewrite Z. destruct (qzero b'); [reflexivity|]. f_equal. apply Qred_complete.
+    rewrite (trunc_proper (a / b) (a' / b')) by (rewrite Ea, Eb; reflexivity). rewrite Ea, Eb. reflexivity.
+Qed.
+
+(* ---------- field laws, on the canonical results the model computes *)
+Ltac canon := unfold nadd, nsub, nmul; apply Qred_complete; rewrite ?Qred_correct.
+
+Theorem nadd_comm a b : nadd a b = nadd b a.            Proof. canon. ring. Qed.
+Theorem nadd_assoc a b c : nadd (nadd a b) c = nadd a (nadd b c). Proof. canon. ring. Qed.
+Theorem nadd_0_l a : nadd 0 a = Qred a.                  Proof. canon. ring. Qed.
+Theorem nsub_diag a : nsub a a = 0.
+Proof. unfold nsub. rewrite (Qred_complete (a - a) 0) by ring. reflexivity. Qed.
+Theorem nsub_nadd a b : nadd (nsub a b) b = Qred a.      Proof. canon. ring. Qed.
+Theorem nmul_comm a b : nmul a b = nmul b a.            Proof. canon. ring. Qed.
+Theorem nmul_assoc a b c : nmul (nmul a b) c = nmul a (nmul b c). Proof. canon. ring. Qed.
+Theorem nmul_1_l a : nmul 1 a = Qred a.                  Proof. canon. ring. Qed.
+Theorem nmul_nadd_distr a b c : nmul a (nadd b c) = nadd (nmul a b) (nmul a c). Proof. canon. ring. Qed.
+
+Theorem ndiv_spec a b : ~ b == 0 -> exists q, ndiv a b = Ok q /\ nmul q b = Qred a.
+Proof.
+  intros Hb. exists (Qred (a / b)). split.
+  - unfold ndiv. apply qzero_false in Hb. rewrite Hb. reflexivity.
+  - canon. field. exact Hb.
+Qed.
+
+Theorem ndiv_zero a b : b == 0 -> ndiv a b = Err DivByZero.
+Proof. intros H. unfold ndiv. apply qzero_iff in H. rewrite H. reflexivity. Qed.
+
+Example ndiv_spec_nonvacuous : ~ (3 # 1) == 0 /\ ndiv 1 (3 # 1) = Ok (1 # 3) /\ nmul (1 # 3) (3 # 1) = 1.
+Proof. split; [discriminate|split; reflexivity]. Qed.
+
+(* no floating-point drift *)
+Example exact_tenths : neqb (nadd (1 # 10) (2 # 10)) (3 # 10) = true.
+Proof. reflexivity. Qed.
+
+(* ---------- comparisons *)
+Lemma nlt_iff a b : nlt a b = true <-> a < b.
+Proof. unfold nlt. destruct (Qcompare_spec a b); split; intros; try discriminate; try reflexivity; lra. Qed.
+Lemma nle_iff a b : nle a b = true <-> a <= b.
+Proof. unfold nle. destruct (Qcompare_spec a b); split; intros; try discriminate; try reflexivity; lra. Qed.
+Lemma ngt_iff a b : ngt a b = true <-> b < a.
+Proof. unfold ngt. destruct (Qcompare_spec a b); split; intros; try discriminate; try reflexivity; lra. Qed.
+Lemma nge_iff a b : nge a b = true <-> b <= a.
+Proof. unfold nge. destruct (Qcompare_spec a b); split; intros; try discriminate; try reflexivity; lra. Qed.
+Lemma neqb_iff a b : neqb a b = true <-> a == b.
+Proof. apply Qeq_bool_iff. Qed.
+
+Theorem cmp_trichotomy a b :
+  (nlt a b = true /\ neqb a b = false /\ ngt a b = false)
+  \/ (nlt a b = false /\ neqb a b = true /\ ngt a b = false)
+  \/ (nlt a b = false /\ neqb a b = false /\ ngt a b = true).
+Proof.
+  assert (Hq : forall x, x = true \/ x = false) by (intros []; auto).
+  pose proof (nlt_iff a b). pose proof (ngt_iff a b). pose proof (neqb_iff a b).
+  destruct (Qcompare_spec a b) as [E|L|G].
+  - right; left. repeat split; [destruct (nlt a b) eqn:X; [|reflexivity]|tauto|destruct (ngt a b) eqn:X; [|reflexivity]]; exfalso; intuition lra.
+  - left. repeat split; [tauto|destruct (neqb a b) eqn:X; [|reflexivity]|destruct (ngt a b) eqn:X; [|reflexivity]]; exfalso; intuition lra.
+  - right; right. repeat split; [destruct (nlt a b) eqn:X; [|reflexivity]|destruct (neqb a b) eqn:X; [|reflexivity]|tauto]; exfalso; intuition lra.
+Qed.
+
+Theorem cmp_duality a b :
+  nlt a b = ngt b a /\ nle a b = nge b a /\ nle a b = negb (ngt a b) /\ nge a b = negb (nlt a b)
+  /\ nle a b = (nlt a b || neqb a b)%bool.
+Proof.
+  unfold nlt, ngt, nle, nge, neqb. rewrite <- (Qcompare_antisym a b).
+  pose proof (Qeq_bool_iff a b) as E.
+  destruct (Qcompare_spec a b) as [H|H|H]; cbn; repeat split; try reflexivity;
+    try (symmetry; apply Qeq_bool_iff; exact H);
+    try (destruct (Qeq_bool a b) eqn:X; [|reflexivity]; exfalso; apply Qeq_bool_iff in X; lra).
+Qed.
+
+Theorem nlt_irrefl a : nlt a a = false.
+Proof. destruct (nlt a a) eqn:X; [|reflexivity]. apply nlt_iff in X. lra. Qed.
+Theorem nlt_trans a b c : nlt a b = true -> nlt b c = true -> nlt a c = true.
+Proof. rewrite !nlt_iff. lra. Qed.
+Theorem nle_antisym a b : nle a b = true -> nle b a = true -> neqb a b = true.
+Proof. rewrite !nle_iff, neqb_iff. lra. Qed.
+Theorem nle_total a b : nle a b = true \/ nle b a = true.
+Proof. rewrite !nle_iff. lra. Qed.
+Theorem nlt_nadd_compat a b c : nlt a b = nlt (nadd a c) (nadd b c).
+Proof.
+  apply Bool.eq_true_iff_eq. rewrite !nlt_iff. unfold nadd. rewrite Qred_lt. lra.
+Qed.
+Theorem nlt_nmul_compat a b c : 0 < c -> nlt a b = nlt (nmul a c) (nmul b c).
+Proof.
+  intros Hc. apply Bool.eq_true_iff_eq. rewrite !nlt_iff. unfold nmul. rewrite Qred_lt. split; intros; nra.
+Qed.
+Example nlt_nmul_compat_nonvacuous : 0 < (2 # 3) /\ nlt (-(1) # 2) (1 # 3) = true.
+Proof. split; reflexivity. Qed.
+(* comparisons do not depend on the representative either *)
+Theorem cmp_proper a a' b b' : a == a' -> b == b' ->
+  nlt a b = nlt a' b' /\ nle a b = nle a' b' /\ neqb a b = neqb a' b'.
+Proof.
+  intros Ea Eb. repeat split; apply Bool.eq_true_iff_eq; rewrite ?nlt_iff, ?nle_iff, ?neqb_iff, Ea, Eb; reflexivity.
+Qed.
+
+(* ---------- integer powers *)
+Lemma as_i64_inject n : fits_i64 n = true -> as_i64 (inject_Z n) = Some n.
+Proof. intros F. unfold as_i64. rewrite Qred_inject_Z. cbn. rewrite F. reflexivity. Qed.
+
+Lemma as_i64_some q n : as_i64 q = Some n -> q == inject_Z n /\ fits_i64 n = true.
+Proof.
+  unfold as_i64. destruct (Pos.eqb_spec (Qden (Qred q)) 1) as [D|D]; [|discriminate].
+  destruct (fits_i64 (Qnum (Qred q))) eqn:F; [|discriminate]. intros [= <-]. split; [|exact F].
+  rewrite <- (Qred_correct q) at 1. destruct (Qred q) as [m d]. cbn in *. subst d. reflexivity.
+Qed.
+
+Lemma npow_int a n : fits_i64 n = true ->
+  npow a (inject_Z n) = if (Z.ltb n 0 && qzero a)%bool then Err DivByZero else Ok (Qred (a ^ n)).
+Proof. intros F. unfold npow. rewrite (as_i64_inject n F). reflexivity. Qed.
+
+Lemma npow_ok a n x : fits_i64 n = true -> npow a (inject_Z n) = Ok x ->
+  x = Qred (a ^ n) /\ (a == 0 -> (0 <= n)%Z).
+Proof.
+  intros F. rewrite (npow_int a n F).
+  destruct (Z.ltb_spec n 0) as [L|L]; cbn [andb].
+  - destruct (qzero a) eqn:Z; [discriminate|]. intros [= <-]. split; [reflexivity|].
+    intros E. apply qzero_false in Z. contradiction.
+  - intros [= <-]. split; [reflexivity|]. intros _. exact L.
+Qed.
+
+Lemma Qpower_zero_base a n : a == 0 -> (0 < n)%Z -> a ^ n == 0.
+Proof. intros E L. rewrite E. apply Qpower_0. lia. Qed.
+
+Theorem pow_add a m n x y :
+  fits_i64 m = true -> fits_i64 n = true -> fits_i64 (m + n) = true ->
+  npow a (inject_Z m) = Ok x -> npow a (inject_Z n) = Ok y ->
+  npow a (inject_Z (m + n)) = Ok (nmul x y).
+Proof.
+  intros Fm Fn Fs Hx Hy.
+  destruct (npow_ok _ _ _ Fm Hx) as [-> Zm]. destruct (npow_ok _ _ _ Fn Hy) as [-> Zn].
+  rewrite (npow_int a _ Fs).
+  destruct (Qeq_dec a 0) as [E|N].
+  - specialize (Zm E). specialize (Zn E).
+    destruct (Z.ltb_spec (m + n) 0) as [L|L]; [lia|]. cbn [andb]. f_equal.
+    unfold nmul. apply Qred_complete. rewrite !Qred_correct.
+    destruct (Z.eq_dec m 0) as [->|Nm].
+    + rewrite Z.add_0_l. cbn [Qpower]. ring.
+    + destruct (Z.eq_dec n 0) as [->|Nn].
+      * rewrite Z.add_0_r. cbn [Qpower]. ring.
+      * rewrite (Qpower_zero_base a (m + n) E) by lia. rewrite (Qpower_zero_base a m E) by lia. ring.
+  - apply qzero_false in N. rewrite N, andb_false_r. f_equal.
+    unfold nmul. apply Qred_complete. rewrite !Qred_correct. apply Qpower_plus. apply qzero_false. exact N.
+Qed.
+
+Theorem pow_mul a m n x y :
+  fits_i64 m = true -> fits_i64 n = true -> fits_i64 (m * n) = true ->
+  npow a (inject_Z m) = Ok x -> npow x (inject_Z n) = Ok y ->
+  npow a (inject_Z (m * n)) = Ok y.
+Proof.
+  intros Fm Fn Fs Hx Hy.
+  destruct (npow_ok _ _ _ Fm Hx) as [-> Zm]. destruct (npow_ok _ _ _ Fn Hy) as [-> Zn].
+  rewrite (npow_int a _ Fs).
+  assert (V : Qred (a ^ (m * n)) = Qred (Qred (a ^ m) ^ n)).
+  { apply Qred_complete. rewrite Qpower_mult. apply Qpower_comp; [|reflexivity]. symmetry. apply Qred_correct. }
+  destruct (Qeq_dec a 0) as [E|N].
+  - specialize (Zm E).
+    destruct (Z.ltb_spec (m * n) 0) as [L|L]; cbn [andb]; [|rewrite V; reflexivity]. exfalso.
+    destruct (Z.eq_dec m 0) as [->|Nm]; [lia|].
+    assert (X : Qred (a ^ m) == 0) by (rewrite Qred_correct; apply Qpower_zero_base; [exact E|lia]).
+    specialize (Zn X). nia.
+  - apply qzero_false in N. rewrite N, andb_false_r, V. reflexivity.
+Qed.
+
+Theorem pow_neg a n : ~ a == 0 -> fits_i64 n = true -> fits_i64 (- n) = true ->
+  exists x, npow a (inject_Z n) = Ok x /\ npow a (inject_Z (- n)) = Ok (Qred (/ x)).
+Proof.
+  intros N Fn Fo. exists (Qred (a ^ n)). apply qzero_false in N.
+  rewrite (npow_int a _ Fn), (npow_int a _ Fo), N, !andb_false_r. split; [reflexivity|]. f_equal.
+  apply Qred_complete. rewrite Qpower_opp, Qred_correct. reflexivity.
+Qed.
+
+Theorem pow_zero_neg a n : a == 0 -> (n < 0)%Z -> fits_i64 n = true -> npow a (inject_Z n) = Err DivByZero.
+Proof.
+  intros E L F. rewrite (npow_int a n F). apply qzero_iff in E. rewrite E.
+  destruct (Z.ltb_spec n 0); [reflexivity|lia].
+Qed.
+
+Theorem pow_0_r a : npow a 0 = Ok 1.
+Proof. exact (npow_int a 0 eq_refl). Qed.
+
+Theorem pow_1_r a : npow a 1 = Ok (Qred a).
+Proof.
+  exact (npow_int a 1 eq_refl).
+Qed.
+
+Theorem pow_succ a n x : (0 <= n)%Z -> fits_i64 n = true -> fits_i64 (n + 1) = true ->
+  npow a (inject_Z n) = Ok x -> npow a (inject_Z (n + 1)) = Ok (nmul x a).
+Proof.
+  intros L Fn Fs Hx. rewrite (pow_add a n 1 x (Qred a) Fn eq_refl Fs Hx (pow_1_r a)).
+  f_equal. unfold nmul. apply Qred_complete. rewrite Qred_correct. reflexivity.
+Qed.
+
+(* outside i64 the code goes through f64: no claim *)
+Theorem pow_unspecified a b : as_i64 b = None -> npow a b = Unspec.
+Proof. intros H. unfold npow. rewrite H. reflexivity. Qed.
+
+(* the documentation of std.number.pow promises exactness for exponents up to 2^64-1; the code
+   (and so the model) leaves the exact path at 2^63 *)
+Lemma pow_doc_range_refuted :
+  exists a n, (- 2 ^ 63 <= n <= 2 ^ 64 - 1)%Z /\ npow a (inject_Z n) = Unspec.
+Proof. exists (-(1))%Q, (2 ^ 63 + 1)%Z. split; [lia|]. vm_compute. reflexivity. Qed.
+
+Example pow_examples :
+  fits_i64 (-3) = true /\ npow (2 # 1) (inject_Z (-3)) = Ok (1 # 8)
+  /\ npow (-(1) # 2) (inject_Z 3) = Ok (-(1) # 8) /\ npow 0 (inject_Z (-1)) = Err DivByZero
+  /\ npow (2 # 1) (1 # 2) = Unspec.
+Proof. repeat split; reflexivity. Qed.
+
+(* ---------- literals *)
+Lemma digits_val_app_gen ds : forall acc,
+  fold_left (fun acc d => (acc * 10 + d)%N) ds acc
+  = (acc * 10 ^ N.of_nat (List.length ds) + digits_val ds)%N.
+Proof.
+  unfold digits_val. induction ds as [|d ds IH]; intros acc; cbn [fold_left List.length].
+  - cbn. lia.
+  - rewrite IH. rewrite (IH (0 * 10 + d)%N). rewrite Nat2N.inj_succ, N.pow_succ_r'. lia.
+Qed.
+
+Lemma digits_val_app i f :
+  digits_val (i ++ f) = (digits_val i * 10 ^ N.of_nat (List.length f) + digits_val f)%N.
+Proof. unfold digits_val at 1. rewrite fold_left_app. apply digits_val_app_gen. Qed.
+
+Lemma ten_pow_nat k : inject_Z (Z.of_N (10 ^ N.of_nat k)) == (10 # 1) ^ Z.of_nat k.
+Proof.
+  rewrite N2Z.inj_pow. rewrite nat_N_Z. change (Z.of_N 10) with 10%Z.
+  rewrite Zpower_Qpower by lia. reflexivity.
+Qed.
+
+Theorem from_sci_spec l :
+  from_sci l ==
+    (inject_Z (Z.of_N (digits_val (l_int l)))
+     + inject_Z (Z.of_N (digits_val (l_frac l))) / (10 # 1) ^ Z.of_nat (List.length (l_frac l)))
+    * (10 # 1) ^ l_exp l.
+Proof.
+  unfold from_sci. rewrite Qred_correct, digits_val_app.
+  rewrite N2Z.inj_add, N2Z.inj_mul, inject_Z_plus, inject_Z_mult, ten_pow_nat.
+  set (k := Z.of_nat (List.length (l_frac l))).
+  assert (T : ~ (10 # 1) == 0) by discriminate.
+  unfold Z.sub. rewrite (Qpower_plus _ _ _ T), Qpower_opp.
+  field. apply Qpower_not_0. exact T.
+Qed.
+
+Theorem from_sci_canonical l : Qred (from_sci l) = from_sci l.
+Proof. unfold from_sci. apply Qred_complete, Qred_correct. Qed.
+
+(* leading zeros and trailing fractional zeros do not change the value *)
+Theorem from_sci_leading_zero i f e : from_sci (mkLit (0%N :: i) f e) = from_sci (mkLit i f e).
+Proof. reflexivity. Qed.
+
+Theorem from_sci_trailing_zero i f e : from_sci (mkLit i (f ++ [0%N]) e) = from_sci (mkLit i f e).
+Proof.
+  rewrite <- (from_sci_canonical (mkLit i (f ++ [0%N]) e)), <- (from_sci_canonical (mkLit i f e)).
+  apply Qred_complete. rewrite !from_sci_spec. cbn [l_int l_frac l_exp].
+  rewrite app_length, digits_val_app. cbn [List.length digits_val fold_left].
+  rewrite Nat.add_1_r, Nat2Z.inj_succ. unfold Z.succ.
+  assert (T : ~ (10 # 1) == 0) by discriminate.
+  rewrite (Qpower_plus _ _ _ T).
+  rewrite N2Z.inj_add, N2Z.inj_mul, inject_Z_plus, inject_Z_mult.
+  change (inject_Z (Z.of_N (10 ^ N.of_nat 1))) with (10 # 1). change (inject_Z (Z.of_N (0 * 10 + 0))) with 0.
+  change ((10 # 1) ^ 1) with (10 # 1).
+  field. apply Qpower_not_0; exact T.
+Qed.
+
+(* exponent and point are interchangeable: d.f e(x) = df e(x - |f|) *)
+Theorem from_sci_shift i f e :
+  from_sci (mkLit i f e) = from_sci (mkLit (i ++ f) [] (e - Z.of_nat (List.length f))).
+Proof. unfold from_sci. cbn [l_int l_frac l_exp List.length]. rewrite app_nil_r, Z.sub_0_r. reflexivity. Qed.
+
+Theorem from_sci_int ds : from_sci (mkLit ds [] 0) = inject_Z (Z.of_N (digits_val ds)).
+Proof.
+  unfold from_sci. cbn [l_int l_frac l_exp List.length]. rewrite app_nil_r.
+  etransitivity; [|apply Qred_inject_Z]. apply Qred_complete. change ((10 # 1) ^ (0 - Z.of_nat 0)) with 1. ring.
+Qed.
+
+Example from_sci_examples :
+  from_sci (mkLit [1%N] [] (-3)) = (1 # 1000) /\ from_sci (mkLit [0%N] [5%N] 1) = (5 # 1)
+  /\ from_sci (mkLit [0%N; 0%N; 7%N] [] 0) = (7 # 1) /\ from_sci (mkLit [] [5%N] 0) = (1 # 2)
+  /\ from_sci (mkLit [1%N; 2%N] [5%N; 0%N] 0) = (25 # 2).
+Proof. repeat split; reflexivity. Qed.
+
+Example pow_laws_nonvacuous :
+  fits_i64 3 = true /\ fits_i64 (-5) = true /\ fits_i64 (3 + -5) = true /\ fits_i64 (3 * -5) = true
+  /\ npow (2 # 3) (inject_Z 3) = Ok (8 # 27) /\ npow (2 # 3) (inject_Z (-5)) = Ok (243 # 32)
+  /\ npow (8 # 27) (inject_Z (-5)) = Ok (14348907 # 32768) /\ ~ (2 # 3) == 0.
+Proof. repeat split; try reflexivity. discriminate. Qed.
+
+Example ops_proper_nonvacuous : (2 # 4) == (1 # 2) /\ (2 # 4) <> (1 # 2) /\ nadd (2 # 4) (3 # 9) = (5 # 6).
+Proof. split; [reflexivity|split; [discriminate|reflexivity]]. Qed.
